@@ -258,6 +258,8 @@ class Engine:
             return True
         if isinstance(v, (FuncV, BoundV, ClassV, PyClassV, BuiltinV, ModuleV, ExcV)):
             return True
+        if isinstance(v, SStrL1):
+            return z3.Length(v.l1) > 0
         if isinstance(v, SStr):
             return True    # formatted strings in this code base are never empty; only used for messages
         raise Unsupported('truth of %r' % (v,))
@@ -787,6 +789,22 @@ class Engine:
                 yield st, mk_bool(a.t == b.t)
                 return
             raise Unsupported('== with opaque value')
+        if isinstance(a, SStrL1) or isinstance(b, SStrL1):
+            # latin-1 decoded strings: compared through their encodings; a constant with a code point >= 256 is never equal
+            x, y = (a, b) if isinstance(a, SStrL1) else (b, a)
+            if isinstance(y, SStrL1):
+                yield st, mk_bool(x.l1 == y.l1)
+                return
+            if isinstance(y, str):
+                try:
+                    yield st, mk_bool(x.l1 == bytes_const(y.encode('latin-1')))
+                except UnicodeEncodeError:
+                    yield st, False
+                return
+            if isinstance(y, SStr):
+                raise Unsupported('== between a decoded and an unknown string')
+            yield st, False
+            return
         if isinstance(a, SStr) or isinstance(b, SStr):
             if isinstance(a, SStr) and isinstance(b, SStr):
                 raise Unsupported('== between two unknown strings')
@@ -1408,6 +1426,17 @@ class Engine:
                             raise Unsupported('assignment to property')
                         if h.cls.find_method('__setattr__'):
                             raise Unsupported('__setattr__')
+                    if tgt.attr == '__dict__':
+                        # obj.__dict__ = <record dict>: replaces all instance fields (CMAC.copy idiom)
+                        d = s1.heap[v.oid].items if isinstance(v, Ref) and s1.heap[v.oid].kind == 'dict' else \
+                            v.d if isinstance(v, FrozenDict) else None
+                        if d is None or not all(isinstance(k, str) for k in d):
+                            raise Unsupported('__dict__ assignment of a non-record')
+                        for k in set(h.fields) | set(d):
+                            s1.writes.append((base.oid, k))
+                        h.fields = dict(d)
+                        outs.append(s1)
+                        continue
                     h.fields[tgt.attr] = v
                     s1.writes.append((base.oid, tgt.attr))
                     outs.append(s1)
